@@ -187,24 +187,25 @@ pub struct Run {
     pub send_error: Option<String>,
 }
 
-pub fn run_case(case: &Case) -> Run {
-    let stream = case.reply_stream_bytes();
-    let chunks = if stream.is_empty() { vec![] } else { split_at_cuts(&stream, &case.cuts) };
+fn script_of(stream: &[u8], cuts: &[usize], pend: &[u8]) -> Vec<ReadEv> {
+    let chunks = if stream.is_empty() { vec![] } else { split_at_cuts(stream, cuts) };
     let mut script = Vec::new();
     for (i, c) in chunks.into_iter().enumerate() {
-        if !case.pend.is_empty() {
-            for _ in 0..case.pend[i % case.pend.len()] {
+        if !pend.is_empty() {
+            for _ in 0..pend[i % pend.len()] {
                 script.push(ReadEv::Pending);
             }
         }
         script.push(ReadEv::Data(c));
     }
-    let script_len = script.len();
-    let (sock, handle) = SimSocket::with_script(script);
-    let mut conn = Connection::new(sock);
+    script
+}
+
+/// One exchange (build the chain, send it, drain its reply stream) on an existing connection.
+fn exchange(conn: &mut Connection<SimSocket>, handle: &vcommon::sim::SimHandle, case: &Case, budget: usize) -> Run {
     let calls = case.calls_of();
     let mut run = Run::default();
-    let budget = 16 + script_len * 3;
+    let writes_before = handle.writes().len();
     {
         let mut chain = match conn.chain_call::<MethodA<'_>, OptParams, ErrA>(&calls[0].1) {
             Ok(c) => c,
@@ -257,7 +258,21 @@ pub fn run_case(case: &Case) -> Run {
             }
         }
     }
-    run.writes = handle.writes();
+    run.writes = handle.writes()[writes_before..].to_vec();
+    run
+}
+
+pub fn run_case(case: &Case) -> Run {
+    let stream = case.reply_stream_bytes();
+    let script = script_of(&stream, &case.cuts, &case.pend);
+    let script_len = script.len();
+    let (sock, handle) = SimSocket::with_script(script);
+    let mut conn = Connection::new(sock);
+    let budget = 16 + script_len * 3;
+    let mut run = exchange(&mut conn, &handle, case, budget);
+    if run.send_error.is_some() {
+        return run;
+    }
     // What is left for a later exchange on the same connection.
     for _ in 0..case.owed_frames().len() + case.trailing as usize + 1 {
         let o = match run_until_ready(conn.receive_reply::<OptParams, ErrA>(), budget) {
@@ -271,6 +286,59 @@ pub fn run_case(case: &Case) -> Run {
         }
     }
     run
+}
+
+/// Several exchanges one after the other on the *same* connection: the replies of all of them are
+/// scripted up front (cut at generated positions), so the frames of exchange k+1 are the "frames of
+/// a later exchange" for the stream of exchange k, and whatever an exchange leaves behind in the
+/// connection (cursors, buffer sizes, the reply stream's bookkeeping) is what the next one starts
+/// from. `cases[..n-1]` have no trailing frames and conforming, decodable replies.
+#[derive(Debug, Clone, Serialize, Deserialize)]
+pub struct Multi {
+    pub cases: Vec<Case>,
+    pub cuts: Vec<usize>,
+    pub pend: Vec<u8>,
+}
+
+impl Multi {
+    pub fn stream(&self) -> Vec<u8> {
+        self.cases.iter().flat_map(|c| c.reply_stream_bytes()).collect()
+    }
+}
+
+pub fn check_multi(m: &Multi, stats: &mut Stats) -> CaseResult {
+    stats.class("lane:several-exchanges-on-one-connection");
+    let stream = m.stream();
+    let script = script_of(&stream, &m.cuts, &m.pend);
+    let budget = 16 + script.len() * 3;
+    let (sock, handle) = SimSocket::with_script(script);
+    let mut conn = Connection::new(sock);
+    if m.cases.iter().filter(|c| c.calls.iter().any(|k| k.kind != Kind::Oneway)).count() >= 2 {
+        stats.nontrivial_hash(hash_of(&(m.cases.iter().map(|c| &c.calls).collect::<Vec<_>>(), &m.cuts, &m.pend)));
+    }
+    let n = m.cases.len();
+    for (k, case) in m.cases.iter().enumerate() {
+        let mut run = exchange(&mut conn, &handle, case, budget);
+        let last = k + 1 == n;
+        if last && run.send_error.is_none() {
+            for _ in 0..case.owed_frames().len() + case.trailing as usize + 1 {
+                let o = match run_until_ready(conn.receive_reply::<OptParams, ErrA>(), budget) {
+                    Some(r) => classify_reply(r),
+                    None => Outcome::Pending,
+                };
+                let stop = o == Outcome::Pending;
+                run.after.push(o);
+                if stop {
+                    break;
+                }
+            }
+        } else {
+            // the frames of the later exchanges are still to come: not judged here
+            run.after = vec![Outcome::Pending];
+        }
+        judge(case, &run).map_err(|f| Fail { sig: format!("{}:exchange-{}-of-{n}", f.sig, k + 1).replace(&format!("-of-{n}"), ""), message: format!("exchange {} of {n} on one connection: {}", k + 1, f.message) })?;
+    }
+    Ok(())
 }
 
 fn expected_outcome(frame: &[u8]) -> Outcome {
@@ -436,6 +504,25 @@ fn call_spec_strategy() -> impl Strategy<Value = CallSpec> {
         .prop_map(|(kind, k, err, explicit_false, pad, call_pad, bare)| CallSpec { kind, k, err, explicit_false, pad, call_pad, bare })
 }
 
+pub fn multi_strategy() -> impl Strategy<Value = Multi> {
+    (prop::collection::vec(case_strategy(), 2..=4), chunk_plan_strategy(), prop::collection::vec(0u8..3, 0..4)).prop_map(|(mut cases, plan, pend)| {
+        let n = cases.len();
+        for (k, c) in cases.iter_mut().enumerate() {
+            if k + 1 < n {
+                c.trailing = 0;
+                for call in &mut c.calls {
+                    call.err %= 3;
+                }
+            }
+            c.cuts.clear();
+            c.pend.clear();
+        }
+        let mut m = Multi { cases, cuts: vec![], pend };
+        m.cuts = resolve_cuts(&plan, &m.stream());
+        m
+    })
+}
+
 pub fn case_strategy() -> impl Strategy<Value = Case> {
     (
         prop::collection::vec(call_spec_strategy(), 1..=6),
@@ -525,6 +612,9 @@ pub fn run(ctx: &Ctx) -> i32 {
     });
     stats.merge(s2);
     viol.extend(v2);
+    let (s3, v3) = run_shards(ctx, "several-exchanges", shards, cases / 3, multi_strategy, check_multi);
+    stats.merge(s3);
+    viol.extend(v3);
     crate::fuzzrun::golden("chain_rx", &mut stats, &mut viol);
     if ctx.tier == vcommon::ev::Tier::Thorough {
         let seeds: Vec<Vec<u8>> = (0..32u8).map(|i| (0..(8 + i as usize * 7)).map(|k| (k as u8).wrapping_mul(29).wrapping_add(i.wrapping_mul(13))).collect()).collect();
@@ -540,6 +630,11 @@ pub fn run(ctx: &Ctx) -> i32 {
 pub fn replay(_lane: &str, case: serde_json::Value) -> CaseResult {
     if _lane == "fuzz" {
         return crate::fuzzrun::replay(&case);
+    }
+    if _lane == "several-exchanges" {
+        let m: Multi = serde_json::from_value(case).map_err(|e| Fail::new("bad-replay", e.to_string()))?;
+        println!("{m:?}");
+        return check_multi(&m, &mut Stats::default());
     }
     let case: Case = serde_json::from_value(case).map_err(|e| Fail::new("bad-replay", e.to_string()))?;
     let run = run_case(&case);
